@@ -162,6 +162,15 @@ pub fn ops_for(l: &Layout) -> Vec<Op> {
 }
 
 /// Reference verdict for one operation on a block: Some(new block) if it must succeed, None if it must fail.
+/// The reference notion of "value allowed by the constraint" (independent of the library's `is_valid`).
+pub fn ref_valid(c: &PrmValueConstraint, v: i64) -> bool {
+    match c {
+        PrmValueConstraint::MinMax(a, b) => *a <= v && v <= *b,
+        PrmValueConstraint::Enum(e) => e.iter().any(|x| *x == v),
+        PrmValueConstraint::Unconstrained => true,
+    }
+}
+
 pub fn ref_apply(l: &Layout, block: &[u8], op: &Op) -> Option<Vec<u8>> {
     let (name, value) = match op {
         Op::Set(n, v) => (n, *v),
@@ -172,7 +181,7 @@ pub fn ref_apply(l: &Layout, block: &[u8], op: &Op) -> Option<Vec<u8>> {
         }
     };
     let f = l.fields.iter().find(|f| f.name == *name)?;
-    if !f.constraint.is_valid(value) {
+    if !ref_valid(&f.constraint, value) {
         return None;
     }
     let (lo, hi) = type_range(f.t);
@@ -385,7 +394,7 @@ pub fn layouts(tier: Tier) -> Vec<Layout> {
                 for d in defaults {
                     let constraints = vec![PrmValueConstraint::Unconstrained, PrmValueConstraint::MinMax(lo.max(-3), hi.min(5)), PrmValueConstraint::Enum(vec![lo, hi, 1.min(hi)])];
                     for c in constraints {
-                        if !c.is_valid(d) && d >= lo && d <= hi {
+                        if !ref_valid(&c, d) && d >= lo && d <= hi {
                             continue;
                         }
                         for texts in [None, Some(vec![("low".to_string(), lo), ("high".to_string(), hi), ("bad".to_string(), hi + 1)])] {
